@@ -37,6 +37,8 @@ Classes ==
        Cls("data_1byte", "data", FALSE, "na", "na", "na"),
        Cls("data_short", "data", FALSE, "na", "na", "na"),
        Cls("data_35", "data", FALSE, "na", "na", "na"),
+       Cls("data_truncated_known_hashes", "data", FALSE, "na", "na", "na"),
+       Cls("data_header_only_known_hashes", "data", TRUE, "na", "na", "na"),
        Cls("data_unknown_hashes", "data", FALSE, "na", "na", "na"),
        Cls("data_ping_valid", "data", TRUE, "na", "na", "na"),
        Cls("data_ping_from_own_ping", "data", TRUE, "na", "na", "na"),
